@@ -1,12 +1,12 @@
 (* C06 — Time limiter resolves every call by its deadline.
    Model: Model/TimeLimiter.v (poll-granular model of TimeLimiter::call over tokio's
-   time::timeout (cancel mode) and spawn + oneshot + un-biased select! + sleep (non-cancel mode)).
+   time::timeout (cancel mode) and spawn + oneshot + biased select! (receiver first) + sleep
+   (non-cancel mode)).
    Quantified over every configuration c (mode `cancel c`, timeout `tmo c i` of caller i: any
    function, so fixed and per-request timeouts), every list of events (Call i = build the future,
-   Poll i tb = poll it once, Drop i, Advance d ms, Complete i o = the inner call of caller i
-   finishes with o in {ok, err, panic}; never completing = no Complete event), any number of
-   concurrent callers, and every value of the tie-break bit tb (the winner of select! when both
-   branches are ready).  `run c evs` is the state after evs; `arrival s i` is the instant of caller
+   Poll i = poll it once, Drop i, Advance d ms, Complete i o = the inner call of caller i
+   finishes with o in {ok, err, panic}; never completing = no Complete event) and any number of
+   concurrent callers.  `run c evs` is the state after evs; `arrival s i` is the instant of caller
    i's first poll; the deadline is arrival + tmo c i.  Inner panics are outside the property: where a
    statement needs it, the hypothesis `o <> OPanic` / `gate s i <> Some OPanic` says so.
    Only statements, `exact`, and Print Assumptions. *)
@@ -21,7 +21,7 @@ Theorem C06_deadline_from_first_poll :
     (cs s i = Created -> arrival s i = None /\ inner s i = INone) /\
     (forall a, arrival s i = Some a -> a <= now s /\ cs s i <> Created) /\
     (forall dl, cs s i = Active dl -> exists a, arrival s i = Some a /\ dl = a + tmo c i) /\
-    (forall tb, cs s i = Created -> arrival (step_st c s (Poll i tb)) i = Some (now s)) /\
+    (cs s i = Created -> arrival (step_st c s (Poll i)) i = Some (now s)) /\
     (forall e a, arrival s i = Some a -> arrival (step_st c s e) i = Some a) /\
     (forall j, step_st c s (Call j) = s).
 Proof. exact deadline_from_first_poll. Qed.
@@ -29,40 +29,42 @@ Print Assumptions C06_deadline_from_first_poll.
 
 (* No poll, in any reachable state, answers Timeout before the caller's deadline. *)
 Theorem C06_no_timeout_before_deadline :
-  forall (c : cfg) (evs : list ev) (i : nat) (tb : bool),
+  forall (c : cfg) (evs : list ev) (i : nat),
     let s := run c evs in
-    r (snd (step c s (Poll i tb))) = 3 -> gate s i <> Some OPanic ->
-    exists a, arrival (step_st c s (Poll i tb)) i = Some a /\ a + tmo c i <= now s.
+    r (snd (step c s (Poll i))) = 3 -> gate s i <> Some OPanic ->
+    exists a, arrival (step_st c s (Poll i)) i = Some a /\ a + tmo c i <= now s.
 Proof. exact no_timeout_before_deadline. Qed.
 Print Assumptions C06_no_timeout_before_deadline.
 
 (* Inner call finished before the deadline: the completion wakes the pending caller at once, and
    the first poll at/after the completion - whatever happens in between to this or other callers,
    short of polling or dropping this one - returns the inner outcome (ok or error, carrying this
-   caller's own value), provided that poll happens before the deadline.  In cancel mode the
-   proviso is not needed (the inner future is polled before the timer). *)
+   caller's own value), in both modes and however late that poll happens (the inner future /
+   the result channel is polled before the timer). *)
 Theorem C06_result_if_before :
-  forall (c : cfg) (evs1 : list ev) (i : nat) (o : outcome) (evs2 : list ev) (tb : bool) (dl : Z),
+  forall (c : cfg) (evs1 : list ev) (i : nat) (o : outcome) (evs2 : list ev) (dl : Z),
     let s1 := run c evs1 in
     cs s1 i = Active dl -> gate s1 i = None -> o <> OPanic ->
-    (forall e, In e evs2 -> e <> Drop i /\ forall tb', e <> Poll i tb') ->
+    (forall e, In e evs2 -> e <> Drop i /\ e <> Poll i) ->
     let s2 := run c (evs1 ++ Complete i o :: evs2) in
-    (cancel c = true \/ now s2 < dl) ->
     woken (step_st c s1 (Complete i o)) i = true /\
-    snd (step c s2 (Poll i tb)) = result i o /\
-    cs (step_st c s2 (Poll i tb)) i = Done /\ inner (step_st c s2 (Poll i tb)) i = IFinished o.
+    snd (step c s2 (Poll i)) = result i o /\
+    cs (step_st c s2 (Poll i)) i = Done /\ inner (step_st c s2 (Poll i)) i = IFinished o.
 Proof. exact result_if_before. Qed.
 Print Assumptions C06_result_if_before.
 
-(* The same for a state reached in any way (also: completion before the first poll, cancel mode). *)
+(* The same for a state reached in any way: a pending call whose inner call has completed resolves
+   with the inner outcome at its next poll, before, at or after the deadline (cancel mode: also
+   at the first poll; non-cancel mode: the first poll cannot see the result, the spawned task has
+   not run yet). *)
 Theorem C06_result_at_poll :
-  forall (c : cfg) (evs : list ev) (i : nat) (tb : bool) (o : outcome),
+  forall (c : cfg) (evs : list ev) (i : nat) (o : outcome),
     let s := run c evs in
     gate s i = Some o -> o <> OPanic ->
     (cancel c = true /\ (cs s i = Created \/ exists dl, cs s i = Active dl)) \/
-    (cancel c = false /\ exists dl, cs s i = Active dl /\ now s < dl) ->
-    snd (step c s (Poll i tb)) = result i o /\
-    cs (step_st c s (Poll i tb)) i = Done /\ inner (step_st c s (Poll i tb)) i = IFinished o.
+    (cancel c = false /\ exists dl, cs s i = Active dl) ->
+    snd (step c s (Poll i)) = result i o /\
+    cs (step_st c s (Poll i)) i = Done /\ inner (step_st c s (Poll i)) i = IFinished o.
 Proof. exact result_now. Qed.
 Print Assumptions C06_result_at_poll.
 
@@ -71,13 +73,13 @@ Print Assumptions C06_result_at_poll.
    Timeout - whatever happened in between, short of polling/dropping this caller or completing
    its inner call. *)
 Theorem C06_timeout_if_after :
-  forall (c : cfg) (evs1 : list ev) (i : nat) (evs2 : list ev) (tb : bool) (dl : Z),
+  forall (c : cfg) (evs1 : list ev) (i : nat) (evs2 : list ev) (dl : Z),
     let s1 := run c evs1 in
     cs s1 i = Active dl -> gate s1 i = None ->
-    (forall e, In e evs2 -> e <> Drop i /\ (forall tb', e <> Poll i tb') /\ forall o, e <> Complete i o) ->
+    (forall e, In e evs2 -> e <> Drop i /\ e <> Poll i /\ forall o, e <> Complete i o) ->
     let s2 := run c (evs1 ++ evs2) in
     dl <= now s2 ->
-    snd (step c s2 (Poll i tb)) = timed_out /\ cs (step_st c s2 (Poll i tb)) i = Done.
+    snd (step c s2 (Poll i)) = timed_out /\ cs (step_st c s2 (Poll i)) i = Done.
 Proof. exact timeout_if_after. Qed.
 Print Assumptions C06_timeout_if_after.
 
@@ -92,36 +94,35 @@ Print Assumptions C06_timer_wakes_at_deadline.
 (* Timeout at any poll at/after the deadline with the inner call unfinished (also a zero timeout
    at the first poll); Pending before the deadline with the inner call unfinished. *)
 Theorem C06_timeout_at_poll :
-  forall (c : cfg) (evs : list ev) (i : nat) (tb : bool),
+  forall (c : cfg) (evs : list ev) (i : nat),
     let s := run c evs in
     gate s i = None ->
     (exists dl, cs s i = Active dl /\ dl <= now s) \/ (cs s i = Created /\ tmo c i <= 0) ->
-    snd (step c s (Poll i tb)) = timed_out /\ cs (step_st c s (Poll i tb)) i = Done.
+    snd (step c s (Poll i)) = timed_out /\ cs (step_st c s (Poll i)) i = Done.
 Proof. exact timeout_now. Qed.
 Print Assumptions C06_timeout_at_poll.
 
 Theorem C06_pending_before_deadline :
-  forall (c : cfg) (evs : list ev) (i : nat) (tb : bool),
+  forall (c : cfg) (evs : list ev) (i : nat),
     let s := run c evs in
     gate s i = None ->
     (exists dl, cs s i = Active dl /\ now s < dl) \/ (cs s i = Created /\ 0 < tmo c i) ->
-    snd (step c s (Poll i tb)) = pending /\
-    exists dl, cs (step_st c s (Poll i tb)) i = Active dl /\ now s < dl.
+    snd (step c s (Poll i)) = pending /\
+    exists dl, cs (step_st c s (Poll i)) i = Active dl /\ now s < dl.
 Proof. exact pending_now. Qed.
 Print Assumptions C06_pending_before_deadline.
 
 (* A poll that finds both the inner result and the elapsed timer (in particular the exact tie
-   t_inner = deadline): cancel mode returns the inner outcome; non-cancel mode returns the inner
-   outcome or Timeout, as the un-biased select! decides (tb) - nothing else. *)
-Theorem C06_tie_either :
-  forall (c : cfg) (evs : list ev) (i : nat) (tb : bool) (o : outcome) (dl : Z),
+   t_inner = deadline, and a late poll of a call whose result was ready in time): the inner
+   outcome wins, in both modes. *)
+Theorem C06_tie_result_wins :
+  forall (c : cfg) (evs : list ev) (i : nat) (o : outcome) (dl : Z),
     let s := run c evs in
     cs s i = Active dl -> gate s i = Some o -> o <> OPanic -> dl <= now s ->
-    snd (step c s (Poll i tb)) =
-      (if cancel c then result i o else if tb then timed_out else result i o) /\
-    cs (step_st c s (Poll i tb)) i = Done.
+    snd (step c s (Poll i)) = result i o /\
+    cs (step_st c s (Poll i)) i = Done.
 Proof. exact tie_either. Qed.
-Print Assumptions C06_tie_either.
+Print Assumptions C06_tie_result_wins.
 
 (* Cancel mode: the inner future exists exactly while the call is pending; the poll that returns
    Timeout drops it (at/after the deadline), and so does cancelling the call. *)
@@ -130,9 +131,9 @@ Theorem C06_cancel_drops_at_deadline :
     let s := run c evs in
     cancel c = true ->
     (inner s i = IRunning <-> exists dl, cs s i = Active dl) /\
-    (forall tb, r (snd (step c s (Poll i tb))) = 3 ->
-       inner (step_st c s (Poll i tb)) i = IDropped /\ cs (step_st c s (Poll i tb)) i = Done /\
-       exists a, arrival (step_st c s (Poll i tb)) i = Some a /\ a + tmo c i <= now s) /\
+    (r (snd (step c s (Poll i))) = 3 ->
+       inner (step_st c s (Poll i)) i = IDropped /\ cs (step_st c s (Poll i)) i = Done /\
+       exists a, arrival (step_st c s (Poll i)) i = Some a /\ a + tmo c i <= now s) /\
     ((exists dl, cs s i = Active dl) -> inner (step_st c s (Drop i)) i = IDropped).
 Proof. exact cancel_drops. Qed.
 Print Assumptions C06_cancel_drops_at_deadline.
@@ -145,7 +146,7 @@ Theorem C06_nocancel_runs_on :
   forall (c : cfg) (evs : list ev) (i : nat),
     let s := run c evs in
     cancel c = false ->
-    (forall tb, cs s i = Created -> inner (step_st c s (Poll i tb)) i <> INone) /\
+    (cs s i = Created -> inner (step_st c s (Poll i)) i <> INone) /\
     (inner s i = IDropped -> gate s i = Some OPanic) /\
     (forall e, inner s i = IRunning ->
        inner (step_st c s e) i = IRunning \/ exists o, e = Complete i o) /\
@@ -161,6 +162,6 @@ Theorem C06_calls_independent :
   forall (c : cfg) (evs : list ev) (i : nat),
     let s := run c evs in let s' := run c (filter (concerns i) evs) in
     now s = now s' /\ callers s i = callers s' i /\
-    forall tb, snd (step c s (Poll i tb)) = snd (step c s' (Poll i tb)).
+    snd (step c s (Poll i)) = snd (step c s' (Poll i)).
 Proof. exact calls_independent. Qed.
 Print Assumptions C06_calls_independent.
